@@ -67,6 +67,12 @@ pub fn check_ws(ws: &WorkspaceSpec, info: &mut CaseInfo) -> Outcome {
         for d in &r.defs {
             let me = DefId { file: fi, line: d.line };
             let Some(u) = r.uses.iter().find(|u| u.in_def_line == Some(d.line) && u.name == d.name) else { continue };
+            if u.line != d.line {
+                // wrapped signature: outside this property's quantifier (a definition line carrying both
+                // the name and the parameter); the parameter itself is judged by C01
+                info.unjudged += 1;
+                continue;
+            }
             // chain length for the non-triviality rule
             let mut chain = 1;
             let mut outside = false;
